@@ -80,6 +80,8 @@ pub fn unit_count(prop: &str, tier: Tier) -> u64 {
         "C17" => (20_000, 1_500_000),
         "C18" => (40_000, 3_000_000),
         "C19" => (400_000, 40_000_000),
+        "C13" => (6_000, 600_000),
+        "C15" => (6_000, 600_000),
         "C14" => (200_000, 20_000_000),
         "C20" => (20_000, 1_500_000),
         _ => (10_000, 500_000),
